@@ -130,6 +130,7 @@ MatchEvent(mm, oe, se, s) ==
            [] se.e = "end" ->
                 LET s1 == IF oe.out.t # se.out.t THEN Fail(s, "outcome differs: observed " \o oe.out.t \o ", specified " \o se.out.t)
                           ELSE IF se.out.t = "ok" THEN Match(mm.heap, oe.out.v, se.out.v, s)
+                          ELSE IF se.out.e.exc = "any" THEN s
                           ELSE IF oe.out.e.exc # se.out.e.exc THEN Fail(s, "final exception class differs: observed " \o oe.out.e.exc \o "/" \o oe.out.e.name \o ", specified " \o se.out.e.exc)
                           ELSE IF se.out.e.name # "?" /\ oe.out.e.name # se.out.e.name THEN Fail(s, "final exception type differs: observed " \o oe.out.e.name)
                           ELSE s
@@ -149,6 +150,43 @@ MatchEvents(mm, ses, i, ll, s) ==
     IF ~s.ok \/ i > Len(ses) THEN [s |-> s, l |-> ll]
     ELSE IF ll > Len(Evs) THEN [s |-> Fail(s, "recorded trace ends, specification continues with " \o ses[i].e), l |-> ll]
     ELSE MatchEvents(mm, ses, i + 1, ll + 1, MatchEvent(mm, Evs[ll], ses[i], s))
+
+(***************************************************************************)
+(* Properties evaluated at every step of every observed execution.  They   *)
+(* are folded into the verdict (a TLC INVARIANT would abort the whole      *)
+(* batch at the first violating trace).  Not evaluated when the trace is   *)
+(* re-judged against a deviation model (Input.props = FALSE).              *)
+(***************************************************************************)
+Swallows == \E n \in DOMAIN Case.host : Case.host[n].h = "call" /\ Case.host[n].mode = "swallow"
+Bound == IF "bound" \in DOMAIN Case THEN Case.bound ELSE Cap
+\* C01: no VM record is charged beyond its budget unless a host callback swallowed the limit error
+BudgetInvP(m2) == Swallows \/ \A v \in 1..Len(m2.vms) : m2.vms[v].max = Unlimited \/ m2.vms[v].ops <= m2.vms[v].max
+\* C01: a counter moves by one, only at a Charge, and the limit error is raised exactly when it reaches the budget
+LimitExactP(m1, m2) ==
+    \A v \in 1..Len(m1.vms) :
+        m2.vms[v].ops # m1.vms[v].ops
+        => /\ m2.vms[v].ops = m1.vms[v].ops + 1
+           /\ m1.ctl.t = "eval"
+           /\ (m2.ctl.t = "exc" /\ m2.ctl.e.exc = "OpsLimit") <=> (m1.vms[v].max # Unlimited /\ m2.vms[v].ops >= m1.vms[v].max)
+\* C01: a charge that raises has no effect
+NoEffectAtLimitP(m1, m2) ==
+    (m1.ctl.t = "eval" /\ m2.ctl.t = "exc") => (m2.heap = m1.heap /\ m2.names = m1.names /\ m2.log = m1.log /\ m2.clos = m1.clos)
+\* C01/C07: every node evaluation of a call is charged to the record of that call
+ChargedAllP(m2) == \A i \in 1..Len(m2.results) : m2.results[i].nev = m2.results[i].ops
+\* C10: the scope stack is balanced whenever an eval call finishes
+ScopeBalanceP(m2) == m2.ctl.t = "start" => \A v \in 1..Len(m2.vms) : Len(m2.vms[v].scopes) = 1
+\* C03: no container longer than the bound
+SizeInvP(m2) == \A a \in 1..Len(m2.heap) : Len(m2.heap[a].items) <= Bound
+
+PropViolation(m1, m2) ==
+    IF ~Input.props THEN ""
+    ELSE IF ~BudgetInvP(m2) THEN "C01 BudgetInv: a VM record was charged beyond its budget"
+    ELSE IF ~LimitExactP(m1, m2) THEN "C01 LimitExact"
+    ELSE IF ~NoEffectAtLimitP(m1, m2) THEN "C01 NoEffectAtLimit"
+    ELSE IF ~ChargedAllP(m2) THEN "C01 ChargedAll: node evaluations of a call not charged to that call"
+    ELSE IF ~ScopeBalanceP(m2) THEN "C10 ScopeBalance: a lambda scope outlived its call"
+    ELSE IF ~SizeInvP(m2) THEN "C03 SizeInv: a container exceeds the size bound"
+    ELSE ""
 
 (***************************************************************************)
 (* Behaviour                                                               *)
@@ -174,6 +212,7 @@ Advance ==
         l2 == IF need /\ haveO THEN l1 + 1 ELSE l1
         m2 == Step(m, Case.calls, HostOf(Case), orc)
         r == MatchEvents(m2, m2.ev, 1, l2, st)
+        pv == IF r.s.ok /\ m2.ctl.t \notin {"unspec", "badoracle"} THEN PropViolation(m, m2) ELSE ""
     IN IF need /\ ~haveO
        THEN /\ verdict' = [s |-> "rejected", l |-> l1, why |-> "a relational builtin was expected to be called here", spec |-> <<>>]
             /\ UNCHANGED <<tid, m, l, st>>
@@ -184,6 +223,7 @@ Advance ==
             /\ verdict' = IF ~r.s.ok THEN [s |-> "rejected", l |-> r.l - 1, why |-> r.s.why, spec |-> m2.ev]
                           ELSE IF m2.ctl.t = "unspec" THEN [s |-> "leftdomain", l |-> r.l, why |-> m2.ctl.why]
                           ELSE IF m2.ctl.t = "badoracle" THEN [s |-> "rejected", l |-> l1, why |-> m2.ctl.why, spec |-> <<>>]
+                          ELSE IF pv # "" THEN [s |-> "rejected", l |-> r.l - 1, why |-> "property " \o pv, spec |-> <<>>]
                           ELSE IF m2.ctl.t = "halt"
                           THEN (IF SkipO(m2, r.l) = Len(Evs) + 1 THEN [s |-> "accepted", l |-> r.l]
                                 ELSE [s |-> "rejected", l |-> r.l, why |-> "recorded trace continues after the specification halted", spec |-> <<>>])
@@ -201,27 +241,6 @@ UnwindA    == verdict.s = "run" /\ StepKind(m) = "Unwind" /\ Advance
 Next == StartCallA \/ ChargeA \/ DispatchA \/ ResolveA \/ CallA \/ ReturnA \/ UnwindA
 
 Spec == Init /\ [][Next]_vars
-
-(***************************************************************************)
-(* Properties evaluated at every step of every observed execution          *)
-(***************************************************************************)
-\* C01: no VM record is charged beyond its budget unless a host callback swallowed the
-\* limit error (then every further charge re-raises: StickyLimit below)
-Swallows == \E n \in DOMAIN Case.host : Case.host[n].h = "call" /\ Case.host[n].mode = "swallow"
-BudgetInv == verdict.s = "rejected" \/ Swallows \/ \A v \in 1..Len(m.vms) : m.vms[v].max = Unlimited \/ m.vms[v].ops <= m.vms[v].max
-\* C01: the limit error is raised exactly when the counter reaches the budget
-LimitExact == [][\A v \in 1..Len(m.vms) :
-                    (v <= Len(m'.vms) /\ m'.vms[v].ops # m.vms[v].ops)
-                    => /\ m'.vms[v].ops = m.vms[v].ops + 1
-                       /\ (m'.ctl.t = "exc" /\ m'.ctl.e.exc = "OpsLimit") <=> (m.vms[v].max # Unlimited /\ m'.vms[v].ops >= m.vms[v].max)]_vars
-\* C01: a charge that raises has no effect on heap, names, log
-NoEffectAtLimit == [][(m.ctl.t = "eval" /\ m'.ctl.t = "exc") => (m'.heap = m.heap /\ m'.names = m.names /\ m'.log = m.log /\ m'.clos = m.clos)]_vars
-\* C10: the scope stack is balanced whenever an eval call finishes
-ScopeBalance == m.ctl.t = "start" => \A v \in 1..Len(m.vms) : Len(m.vms[v].scopes) = 1
-\* C02: everything reachable from names is plain data, a builtin or a lambda (host functions aside)
-\* C03: no container longer than the bound
-Bound == IF "bound" \in DOMAIN Case THEN Case.bound ELSE Cap
-SizeInv == verdict.s # "run" \/ \A a \in 1..Len(m.heap) : Len(m.heap[a].items) <= Bound
 
 Emit == verdict.s = "run" \/
         PrintT(ToJson([tid |-> Case.tid, v |-> verdict.s, l |-> verdict.l,
